@@ -202,6 +202,11 @@ pub fn run_case(case: &Value, out: &mut Out) {
         if mode != "load" {
             let fullobs = mode == "full" || mode == "bytes";
             let lim = Limits { pixels: fullobs, max_canvas: if fullobs { 1 << 16 } else { 1 << 20 }, max_cels: if fullobs { 64 } else { 6 } };
+            // every other case (by id) is first put through an adversarial call order: what it reports must not depend on it
+            let perturbed = case.get("perturb").and_then(|t| t.as_bool()).unwrap_or_else(|| id.as_str().map_or(false, |s| s.bytes().fold(0u32, |a, b| a.wrapping_mul(31).wrapping_add(b as u32)) % 2 == 1));
+            if perturbed {
+                observe::perturb(ase, &lim);
+            }
             let obs = observe::observe(ase, &lim);
             if case.get("twice").and_then(|t| t.as_bool()).unwrap_or(false) {
                 // determinism: further loads of the same bytes (each gets fresh hash seeds), second observation of the first
@@ -494,6 +499,8 @@ pub fn cuts_cmd(args: &[String]) {
     let input = arg(args, "--in").unwrap_or("-");
     let mut out = Out::new(arg(args, "--out").unwrap_or("-"));
     let max_eof: usize = arg(args, "--max").and_then(|s| s.parse().ok()).unwrap_or(1 << 20);
+    let tmpdir = arg(args, "--tmp").unwrap_or("/var/tmp").to_string();
+    let sparse_above: usize = arg(args, "--sparse-above").and_then(|s| s.parse().ok()).unwrap_or(100_000);
     for line in read_lines(input) {
         if line.trim().is_empty() {
             continue;
@@ -515,6 +522,37 @@ pub fn cuts_cmd(args: &[String]) {
             out.ev(&json!({"ev": "skip", "case": case["id"], "why": full.result, "crash": false}));
             continue;
         }
+        if eof > sparse_above {
+            // large files: every cut near the start, near the end, around every chunk start and around every multiple of
+            // 64 KiB (the loader reads bodies in bounded steps), and a stride in between
+            let mut at: Vec<usize> = (0..4096.min(eof)).collect();
+            at.extend(eof.saturating_sub(4096)..eof);
+            at.extend((0..eof).step_by(257));
+            let mut marks: Vec<usize> = (1..=(eof / 65536)).map(|k| k * 65536).collect();
+            if let Some(e) = &enc {
+                marks.extend(e.fields.iter().filter(|f| f.name.ends_with(".size") || f.name.ends_with(".nbytes")).map(|f| f.off));
+                // ... and relative to each chunk start (bodies are read from there)
+                let starts: Vec<usize> = e.fields.iter().filter(|f| f.name.ends_with(".size")).map(|f| f.off).collect();
+                for s0 in starts {
+                    for k in 1..=((eof - s0.min(eof)) / 65536) {
+                        marks.push(s0 + 6 + k * 65536);
+                        marks.push(s0 + k * 65536);
+                    }
+                }
+            }
+            for m in marks {
+                at.extend(m.saturating_sub(8)..(m + 9).min(eof));
+            }
+            at.retain(|k| *k < eof);
+            at.sort();
+            at.dedup();
+            let results: Vec<String> = at.iter().map(|k| load_bytes(&bytes[..*k]).result).collect();
+            let at_eof = load_bytes(&bytes[..eof]).result;
+            out.ev(&json!({"ev": "scuts", "case": case["id"], "len": bytes.len(), "eof": eof, "full": full.result, "at": at, "results": results, "at_eof": at_eof,
+                "bytes": if bytes.len() <= 600_000 { json!(bytes) } else { json!([]) }}));
+            out.flush();
+            continue;
+        }
         let full_obs = full.ase.as_ref().map(|a| observe::observe(a, &Limits { pixels: false, max_canvas: 1 << 16, max_cels: 4 }));
         let mut results: Vec<String> = Vec::with_capacity(eof + 1);
         let mut same_as_full: Vec<bool> = Vec::with_capacity(eof + 1);
@@ -529,6 +567,35 @@ pub fn cuts_cmd(args: &[String]) {
         }
         out.ev(&json!({"ev": "cuts", "case": case["id"], "len": bytes.len(), "eof": eof, "full": full.result, "results": results, "same_as_full": same_as_full,
             "bytes": if bytes.len() <= 200_000 { json!(bytes) } else { json!([]) }}));
+        // the by-path entry point (its own reading code): a sample of the same prefixes written to disk and loaded with read_file
+        {
+            let mut at: Vec<usize> = (0..eof).step_by((eof / 40).max(1)).collect();
+            at.extend(eof.saturating_sub(24)..eof);
+            at.extend(128..160.min(eof));
+            if let Some(e) = &enc {
+                for f in e.fields.iter().filter(|f| f.name.ends_with(".size")).rev().take(3) {
+                    at.extend(f.off.saturating_sub(2)..(f.off + 24).min(eof));
+                }
+            }
+            at.retain(|k| *k < eof);
+            at.sort();
+            at.dedup();
+            let load_path = |n: usize| -> String {
+                let path = format!("{}/asever-cut-{}.aseprite", tmpdir, std::process::id());
+                std::fs::write(&path, &bytes[..n]).unwrap();
+                let r = catch_unwind(AssertUnwindSafe(|| AsepriteFile::read_file(std::path::Path::new(&path))));
+                let _ = std::fs::remove_file(&path);
+                match r {
+                    Ok(Ok(_)) => "ok".to_string(),
+                    Ok(Err(e)) => classify(&e),
+                    Err(_) => "panic".into(),
+                }
+            };
+            let results: Vec<String> = at.iter().map(|k| load_path(*k)).collect();
+            let at_eof = load_path(eof);
+            out.ev(&json!({"ev": "scuts", "case": format!("{}|read_file", case["id"].as_str().unwrap_or("?")), "len": bytes.len(), "eof": eof, "full": full.result,
+                "at": at, "results": results, "at_eof": at_eof, "bytes": []}));
+        }
         out.flush();
     }
 }
